@@ -94,3 +94,142 @@ def code_accepts(prog, b, fw, samples, walk=None):
                 msg = str(e).replace("\n", " | ")
                 out.append(("parse_obj_fails", f"sample#{i}: {type(e).__name__}: {msg}"[:300]))
     return out
+
+
+# ------------------------------------------------------------------------------------------------
+# C03 clauses on a loaded program
+# ------------------------------------------------------------------------------------------------
+import ast as _ast
+import importlib as _importlib
+import keyword as _keyword
+
+
+def _names_in_annotation(node):
+    """identifier names used by an annotation AST node, looking inside quoted forward references"""
+    out = set()
+    for n in _ast.walk(node):
+        if isinstance(n, _ast.Name):
+            out.add(n.id)
+        elif isinstance(n, _ast.Constant) and isinstance(n.value, str):
+            try:
+                sub = _ast.parse(n.value, mode="eval")
+            except SyntaxError:
+                continue
+            for m in _ast.walk(sub):
+                if isinstance(m, _ast.Name):
+                    out.add(m.id)
+    return out
+
+
+def _ptr_models(t, out):
+    k = ir.kind(t)
+    if k == "ptr":
+        out.add(t.type.index)
+    elif k in ("opt", "list", "dict"):
+        _ptr_models(t.type, out)
+    elif k in ("union", "tuple"):
+        for m in t.types:
+            _ptr_models(m, out)
+    return out
+
+
+def _hint_classes(h, classes, out):
+    if isinstance(h, type) and h in classes:
+        out.add(h)
+    for a in typing.get_args(h) or ():
+        _hint_classes(a, classes, out)
+    return out
+
+
+def structure_clauses(prog, b, fw):
+    """C03: class count, names, uniqueness, reference resolution, import shadowing.
+    Returns [(clause, detail)]."""
+    out = []
+    defs = prog.class_defs()
+    n_models = len(b.reg.models_map)
+    if len(defs) != n_models:
+        out.append(("class_count_differs_from_model_count", f"{len(defs)} class statements for {n_models} models: "
+                    f"{['.'.join(q) for q, _ in defs]} vs {[m.name for m in b.reg.models]}"))
+    # names
+    scopes = {}
+    for q, node in defs:
+        scopes.setdefault(q[:-1], []).append(q[-1])
+        if not q[-1].isidentifier() or _keyword.iskeyword(q[-1]):
+            out.append(("class_name_not_an_identifier", q[-1]))
+        fields = [st.target.id for st in node.body if isinstance(st, _ast.AnnAssign) and isinstance(st.target, _ast.Name)]
+        for f in fields:
+            if not f.isidentifier() or _keyword.iskeyword(f):
+                out.append(("field_name_not_an_identifier", f))
+        if len(set(fields)) != len(fields):
+            out.append(("duplicate_field_name", f"{'.'.join(q)}: {fields}"))
+        nested = [st.name for st in node.body if isinstance(st, _ast.ClassDef)]
+        clash = set(fields) & set(nested)
+        if clash:
+            out.append(("field_and_nested_class_share_name", f"{'.'.join(q)}: {sorted(clash)}"))
+    for scope, names in scopes.items():
+        if len(set(names)) != len(names):
+            out.append(("duplicate_class_name", f"scope {'.'.join(scope) or '<module>'}: {names}"))
+    if out:
+        return out
+    mapping, problems = program.model_classes(prog, b.reg)
+    if problems:
+        out.append(("model_without_unique_class", str(problems)))
+        return out
+    classes = {cls: qual for idx, (qual, cls) in mapping.items()}
+    by_model = {idx: cls for idx, (qual, cls) in mapping.items()}
+    imported = prog.imported_names()
+    originals = {}
+    for name, (module, attr) in imported.items():
+        try:
+            m = _importlib.import_module(module)
+            originals[name] = getattr(m, attr) if attr else _importlib.import_module(module.split(".")[0])
+        except Exception as e:
+            out.append(("import_unresolvable", f"{module}.{attr}: {e}"))
+    node_by_qual = dict(defs)
+    for idx, (qual, cls) in mapping.items():
+        model = b.reg.models_map[idx]
+        try:
+            hints = prog.hints(qual)
+        except Exception as e:
+            out.append(("annotation_unresolvable", f"{'.'.join(qual)}: {type(e).__name__}: {e}"))
+            continue
+        table = program.field_table(cls, fw)
+        names_by_key = {f.key: f.name for f in table}
+        for key, t in model.type.items():
+            want = {by_model[i] for i in _ptr_models(t, set()) if i in by_model}
+            fname = names_by_key.get(key)
+            if fname is None:
+                continue  # key/alias correspondence is C04/C11's subject
+            h = hints.get(fname)
+            got = _hint_classes(h, classes, set())
+            if got != want:
+                out.append(("reference_resolves_to_wrong_class", f"{'.'.join(qual)}.{fname}: annotation refers to "
+                            f"{sorted(c.__qualname__ for c in got)}, model refers to {sorted(c.__qualname__ for c in want)}"))
+        # import shadowing, semantically: every imported name used by this class's annotations/defaults/
+        # decorators must still evaluate to the imported object in this class's scope
+        node = node_by_qual[qual]
+        # annotations are evaluated lazily against the final class namespace (what get_type_hints does);
+        # decorators and bases are evaluated in the enclosing scope. Names used by default values are
+        # evaluated mid-body and are judged by exec itself (and by C04's default clauses), not here.
+        used_cls = set()
+        for st in node.body:
+            if isinstance(st, _ast.AnnAssign):
+                used_cls |= _names_in_annotation(st.annotation)
+        used_outer = set()
+        for d in node.decorator_list:
+            used_outer |= {n.id for n in _ast.walk(d) if isinstance(n, _ast.Name)}
+        for base in node.bases:
+            used_outer |= {n.id for n in _ast.walk(base) if isinstance(n, _ast.Name)}
+        scope = dict(prog.mod.__dict__)
+        scope.update(prog.localns(qual))
+        scope.update({k: v for k, v in vars(cls).items() if not k.startswith("__")})
+        outer = dict(prog.mod.__dict__)
+        if len(qual) > 1:
+            outer.update(prog.localns(qual[:-1]))
+        for name in sorted(used_cls & set(originals)):
+            if scope.get(name) is not originals[name]:
+                out.append(("imported_name_shadowed", f"{name} in scope of {'.'.join(qual)} is {scope.get(name)!r}"))
+        for name in sorted(used_outer & set(originals)):
+            if outer.get(name) is not originals[name]:
+                out.append(("imported_name_shadowed", f"{name} in the scope enclosing {'.'.join(qual)} is {outer.get(name)!r}"))
+    return out
